@@ -180,7 +180,7 @@ def opBvh (req : J) : J :=
   let rays := match req.get? "rays" with | some (J.arr l) => l.filterMap rayOf | _ => []
   let k := match req.get? "leaf" with | some (J.num false m 0) => m | _ => 30
   let tree := Bvh.build boxOps k boxes
-  J.obj [("bvh", J.arr (rays.map (fun r => J.bool (Bvh.query boxOps r tree)))),
+  J.obj [("bvh", J.arr (rays.map (fun r => J.bool (Bvh.walk boxOps r [tree])))),
          ("exhaustive", J.arr (rays.map (fun r => J.bool (boxes.any (fun b => b.hit r)))))]
 
 /-- op `raypoly`: polygon, inverse pose, rays → hit parameter or null, and the squared distance of the
